@@ -62,6 +62,15 @@ func decodeWith(f func([]byte) (secs2.Item, error), b []byte) (res result) {
 }
 
 func (x *runner) one(b []byte, class string, expect string) {
+	defer func() {
+		if p := recover(); p != nil {
+			x.c.Fail("implementation panicked on an accessor/re-encode of a decoded item", "D "+trunc(vh.Hex(b))+" class="+class+fmt.Sprintf(" (%v)", p))
+		}
+	}()
+	x.oneInput(b, class, expect)
+}
+
+func (x *runner) oneInput(b []byte, class string, expect string) {
 	c := x.c
 	key := string(b)
 	if x.seen[key] {
@@ -671,6 +680,50 @@ func main() {
 					emit(item)
 				}
 			}
+		}
+	}
+	// valid encodings with every length-byte pattern: 1/2/3 length bytes x each byte zero/non-zero
+	// (0x010100, 0x010101, 0x011170 ... : a non-zero MIDDLE byte of a 3-byte length field), as
+	// leaves of several types, as list child counts, alone and followed by a sibling
+	{
+		item := func(fc, nl, l int, fill func(i int) byte) []byte {
+			out := []byte{byte(fc<<2 | nl)}
+			for i := nl - 1; i >= 0; i-- {
+				out = append(out, byte(l>>(8*uint(i))))
+			}
+			for i := 0; i < l; i++ {
+				out = append(out, fill(i))
+			}
+			return out
+		}
+		rnd := func(int) byte { return byte(r.Intn(256)) }
+		lens := []int{0, 0xcc, 0x100, 0x1cc, 0xff00, 0xffff, 0x10000, 0x100cc, 0x10100, 0x10101, 0x11170}
+		for _, l := range lens {
+			for nl := 1; nl <= 3; nl++ {
+				if l >= 1<<(8*uint(nl)) {
+					continue
+				}
+				for _, fc := range []int{0o10, 0o20, 0o11} {
+					if fc != 0o10 && l > 0x10000 && l != 0x10101 {
+						continue
+					}
+					enc := item(fc, nl, l, rnd)
+					x.one(enc, "length-bytes", "accept")
+					x.one(append(append([]byte{0x01, 0x02}, enc...), 0xA5, 0x01, 0x2a), "length-bytes+sibling", "accept")
+				}
+			}
+		}
+		x.one(item(0o54, 3, 80000, rnd), "length-bytes", "accept")  // 20000 x U4, 0x013880
+		x.one(item(0o32, 3, 70000, rnd), "length-bytes", "accept")  // 35000 x I2
+		x.one(item(0o40, 3, 65792, rnd), "length-bytes", "accept")  // 8224 x F8
+		x.one(item(0o22, 3, 65793, rnd), "length-bytes", "accept")  // localized
+		for _, n := range []int{256, 0x1cc, 66000} { // list child counts
+			enc := []byte{0x03, byte(n >> 16), byte(n >> 8), byte(n)}
+			for i := 0; i < n; i++ {
+				enc = append(enc, 0x21, 0x01, byte(i))
+			}
+			x.one(enc, "length-bytes-list", "accept")
+			x.one(append(enc, 0x41, 0x01, 'x'), "length-bytes-list", "accept")
 		}
 	}
 	// mutations of valid encodings
